@@ -357,6 +357,14 @@ def gen_tree(rng, size):
           seq.append(('i', ('csrr', dst())) if rng.random() < 0.5 else ('i', ('csrw', src())))
           if seq[-1][1][0] == 'csrr' and seq[-1][1][1] in pool: recent.append(seq[-1][1][1])
         out += seq; n -= len(seq)
+      elif k < 0.36:                                                          # pointer chasing: a loaded value is the next address
+        p = rng.choice(PTRS)
+        seq = [('i', ('lw', p, BASE, 4 * rng.choice(PTR_SLOTS)))]
+        for _ in range(rng.choice([0, 0, 1, 2])): seq.append(simple())
+        seq = [x for x in seq if not (x[1][0] in ('lw', 'addi') and x[1][1] == p and x is not seq[0])]
+        o = 4 * rng.randint(-16, 8)
+        seq.append(('i', ('lw', dst(), p, o)) if rng.random() < 0.5 else ('i', ('sw', src(), p, o)))
+        out += seq; n -= len(seq)
       else: out.append(simple()); n -= 1
     return out
   prologue = [('i', ('csrr', BASE))]
@@ -613,12 +621,12 @@ def report(ctx, tree, prog, words, pname, cfg, o):
 def run_procs(ctx):
   rng = ctx.rng
   quick = ctx.tier == 'quick'
-  nprog = 60 if quick else 1200
+  nprog = 50 if quick else 1400
   ncfg = 3
   progs = []
   for k in range(nprog):
     prng = __import__('random').Random(rng.getrandbits(64))
-    size = prng.choice([6, 12, 25, 40, 60, 90])
+    size = prng.choice([10, 25, 50, 80, 120, 160])
     for attempt in range(20):
       tree = gen_tree(prng, size)
       data = gen_data(prng)
@@ -626,7 +634,7 @@ def run_procs(ctx):
         prog = build(tree, data, [DATA], prng)
       except GenSimError:
         continue
-      if prog['ref']['dyn'] <= 1500: break
+      if prog['ref']['dyn'] <= 2500: break
     else:
       raise RuntimeError('generator could not produce a legal terminating program')
     cfgs = [gen_config(prng, 'fast')] + [gen_config(prng, 'any') for _ in range(ncfg - 1)]
